@@ -431,7 +431,7 @@ impl Prop for Exchange {
         "C16"
     }
     fn rule(&self) -> String {
-        "Three case kinds. Query: one argumentation problem (all 21, every selectable encoder, with/without certificate) on a generated framework of <=7 arguments run through ExternalSatSolver(fake_sat); fake_sat validates every DIMACS text strictly (header V >= every variable incl. assumption units, exact clause count, 0-terminated) and shapes its reply by generated knobs: 0-4000 comment lines of 2-200 bytes before/between/after (20 B to ~1 MiB, both sides of the 64 KiB pipe), 1..all literals per v line, read-first / write-first / chunk-interleaved / echo-while-reading I/O, CRLF; the answer must equal the brute-force answer. Reply: a small CNF whose reply is generated from a reply grammar (well-formed, or corrupted: missing/double status, missing/double terminator, out-of-range or non-numeric literal, stray line incl. look-alikes such as `v1 -2 0`, `version 2`, `s satisfiable`, s UNKNOWN, truncation, no model) and replayed verbatim; an independent reference reply parser decides Sat(model)/Unsat/Invalid/Unspecified and the solver object must return exactly that model / Unsatisfiable / (Unknown or abort). BigModel: SE-ST on a chain of 8k-30k arguments so that the instance and the v lines each exceed 64 KiB, with a banner of up to 600 KB printed before reading or comments echoed while reading (both pipes full at once). Every external interaction runs under a 30 s watchdog that consults the child's own progress log. Non-trivial: reply >64 KiB, or a reply classified Invalid, or a query needing >=2 external calls; distinct = case.".into()
+        "Three case kinds. Query: one argumentation problem (all 21, every selectable encoder, with/without certificate) on a generated framework of <=7 arguments run through ExternalSatSolver(fake_sat); fake_sat validates every DIMACS text strictly (header V >= every variable incl. assumption units, exact clause count, 0-terminated) and shapes its reply by generated knobs: 0-4000 comment lines of 2-200 bytes before/between/after (20 B to ~1 MiB, both sides of the 64 KiB pipe), 1..all literals per v line, read-first / write-first / chunk-interleaved / echo-while-reading I/O, CRLF; the answer must equal the brute-force answer. Reply: a small CNF whose reply is generated from a reply grammar (well-formed, or corrupted: missing/double status, missing/double terminator, out-of-range or non-numeric literal, stray line incl. look-alikes such as `v1 -2 0`, `version 2`, `s satisfiable`, s UNKNOWN, truncation, no model) and replayed verbatim; an independent reference reply parser decides Sat(model)/Unsat/Invalid/Unspecified and the solver object must return exactly that model / Unsatisfiable / (Unknown or abort). BigModel: SE-ST on a chain of 8k-40k (thorough 60k) arguments (DIMACS text from 0.3 to over 1.5 MiB) so that the instance and the v lines each exceed 64 KiB, with a banner of up to 600 KB printed before reading or comments echoed while reading (both pipes full at once). Every external interaction runs under a 30 s watchdog that consults the child's own progress log. Non-trivial: reply >64 KiB, or a reply classified Invalid, or a query needing >=2 external calls; distinct = case.".into()
     }
     fn assumptions(&self) -> Vec<String> {
         vec![
@@ -469,7 +469,7 @@ impl Prop for Exchange {
                 clauses.push(vec![nv as i8, -(nv as i8)]);
                 ExCase::Reply { clauses, assumptions, reply, crlf, final_newline }
             });
-        let big_hi = tier.pick(16_000u32, 30_000u32);
+        let big_hi = tier.pick(40_000u32, 60_000u32);
         let big = (8_000u32..big_hi, 0u8..40, 0u8..4, prop_oneof![1 => Just(0u16), 2 => 400u16..3000], 20u8..200)
             .prop_map(|(n, v_width, io_order, comments_before, comment_len)| ExCase::BigModel { n, v_width, io_order, comments_before, comment_len });
         prop_oneof![
